@@ -11,8 +11,9 @@ Model of
   choice of the unmarshaller, binding of `resp.result` / `resp.error`).
 
 External code is a parameter: the verdict of a custom state checker on the response at hand
-(`custom`), the outcome of reading the body (`readOK`) and of `encoding/json` /
-`encoding/xml` on the body for the selected target (`jsonOK`, `xmlOK`).
+(`custom`), the outcome of reading the body (`readOK`), of the client's response-body
+transformer on it (`xf`) and of `encoding/json` / `encoding/xml` on the body for the selected
+target (`jsonOK`, `xmlOK`).
 -/
 namespace Req.Result
 open Req.Proto
@@ -28,6 +29,9 @@ inductive Err
   | builder        -- Request.error accumulated by setters (Do returns before any middleware)
   | unreplayable   -- retry enabled with an unreplayable body
   | digest         -- digest challenge could not be answered
+  | output         -- SetOutput / SetOutputFile: creating or writing the output failed (handleDownload)
+  | ctxCanceled    -- an error that wraps context.Canceled (raised by the transport / a wrapper)
+  | ctxDone        -- `r.Context().Err()`, assigned by do()'s wait before a retry when the context is done
   deriving DecidableEq, Repr, Inhabited
 
 inductive ResultState
@@ -95,15 +99,45 @@ inductive Target
   | errorCommon   -- new(Client.commonErrorType) → resp.error
   deriving DecidableEq, Repr, Inhabited
 
+/-- Outcome of the client's response-body transformer (`Client.SetResponseBodyTransformer`) on
+the body of one response, when `ToBytes` gets to call it (it does only after a complete read). -/
+inductive Xf
+  | none                                  -- no transformer installed
+  | ok                                    -- returns a (non-nil) body and no error
+  | fail (e : Err) (keepsBody : Bool)     -- returns an error, together with a nil / a non-nil body
+  deriving DecidableEq, Repr, Inhabited
+
 /-- The facts about one http response that binding depends on. -/
 structure Http where
   status : Int
   ct : Bytes
   custom : Option ResultState   -- verdict of the client's custom checker, if one is installed
   readOK : Bool                 -- reading the body to the end succeeds
-  jsonOK : Bool                 -- json.Unmarshal(body, target) succeeds
+  jsonOK : Bool                 -- json.Unmarshal(body, target) succeeds (body as handed to the unmarshaller)
   xmlOK : Bool                  -- xml.Unmarshal(body, target) succeeds
+  xf : Xf := .none              -- what the response-body transformer does with this body
   deriving DecidableEq, Repr, Inhabited
+
+/-- `(*Response).ToBytes` when it really reads (`resp.Err == nil`, `resp.body == nil`):
+`body, err = io.ReadAll(r.Body); if err == nil && transformer != nil { body, err = transformer(body, …) }`
+and, deferred, `if err != nil { r.Err = err }; r.body = body`. `acqErr` is the error returned AND
+recorded in `resp.Err`. -/
+def Http.acqErr (h : Http) : Option Err :=
+  if !h.readOK then some .read
+  else match h.xf with
+    | .fail e _ => some e
+    | _ => none
+
+/-- … and whether `resp.body` is non-nil afterwards (`io.ReadAll` always returns a non-nil slice,
+a failing transformer returns what it likes). -/
+def Http.acqBody (h : Http) : Bool :=
+  if !h.readOK then true
+  else match h.xf with
+    | .fail _ keeps => keeps
+    | _ => true
+
+/-- The body reads to the end and the transformer (if any) accepts it. -/
+def Http.bodyOK (h : Http) : Bool := h.acqErr.isNone
 
 /-- The two result slots of a `Response` (`result`, `error`). -/
 structure Slots where
@@ -162,8 +196,8 @@ def parseBody (i : BindIn) : BindOut :=
     match i.respErr with
     | some e => { keep with err := some e }                      -- ToBytes: `if r.Err != nil`
     | none =>
-      if !i.bodyCached && !h.readOK then                          -- ToBytes reads, fails, records
-        { keep with err := some .read, respErr := some .read, bodyCached := true }
+      if !i.bodyCached && !h.bodyOK then                          -- ToBytes reads / transforms, fails, records
+        { keep with err := h.acqErr, respErr := h.acqErr, bodyCached := h.acqBody }
       else if codecOK h then
         { keep with slots := store i.slots t, bodyCached := true, codec := some (codecFor h.ct) }
       else
